@@ -19,6 +19,7 @@
 #include <core/sync.h>
 #include <datatypes/msg_queue.h>
 #include <distributed/mpi.h>
+#include <log/stats.h>
 
 #include <memory.h>
 #include <stdatomic.h>
@@ -294,7 +295,10 @@ void gvt_msg_drain(void)
 	while(thread_phase != thread_phase_idle ||
 	      atomic_load_explicit(&gvt_drain_cnt, memory_order_relaxed) != global_config.n_threads ||
 	      atomic_load_explicit(&gvt_nodes, memory_order_relaxed)) {
-		gvt_phase_run();
+		// peers may have collected this reduction in their main loop: keep the statistics records aligned
+		simtime_t current_gvt = gvt_phase_run();
+		if(unlikely(current_gvt != 0.0))
+			stats_on_gvt(current_gvt);
 		mpi_remote_msg_drain();
 	}
 
